@@ -492,11 +492,11 @@ fn gate(out: &mut Out, rng: &mut R) {
         // different ids => refused (both directions); equal => proceeds
         out.s("merge_id_gate", same == r.starts_with("ok ") && same == r2.starts_with("ok "), || format!("{} | {} -> {} / {}", hex(&serialize(&t)), pd::adds_text(&b), &r[..r.len().min(60)], &r2[..r2.len().min(60)]));
         if pa.unique_id().is_err() {
-            out.s("merge_id_gate_variant", r == format!("err {}", pd::err_name(&pa.unique_id().unwrap_err())), || format!("{} | {} -> {}", hex(&serialize(&t)), pd::adds_text(&b), &r[..r.len().min(80)]));
+            out.pin("merge_id_gate_variant", r == format!("err {}", pd::err_name(&pa.unique_id().unwrap_err())), || format!("{} | {} -> {}", hex(&serialize(&t)), pd::adds_text(&b), &r[..r.len().min(80)]));
         } else if pb.unique_id().is_err() {
-            out.s("merge_id_gate_variant", r == format!("err {}", pd::err_name(&pb.unique_id().unwrap_err())), || format!("{} | {} -> {}", hex(&serialize(&t)), pd::adds_text(&b), &r[..r.len().min(80)]));
+            out.pin("merge_id_gate_variant", r == format!("err {}", pd::err_name(&pb.unique_id().unwrap_err())), || format!("{} | {} -> {}", hex(&serialize(&t)), pd::adds_text(&b), &r[..r.len().min(80)]));
         } else if !same {
-            out.s("merge_id_gate_variant", r == "err UniqueIdMismatch", || format!("{} | {} -> {}", hex(&serialize(&t)), pd::adds_text(&b), &r[..r.len().min(80)]));
+            out.pin("merge_id_gate_variant", r == "err UniqueIdMismatch", || format!("{} | {} -> {}", hex(&serialize(&t)), pd::adds_text(&b), &r[..r.len().min(80)]));
         }
     }
 }
